@@ -309,3 +309,115 @@ pub fn read_clock_ns(id: libc::clockid_t) -> Option<u64> {
     }
     Some(ts.tv_sec as u64 * 1_000_000_000 + ts.tv_nsec as u64)
 }
+
+// ---------------------------------------------------------------------------------------------
+// CPU-time watchdog: detects a library call that burns CPU without returning.
+
+use std::sync::atomic::{AtomicU64, Ordering as AOrd};
+use std::sync::{Arc, Mutex};
+
+pub struct WatchSlot {
+    pub clock: libc::clockid_t,
+    pub counter: AtomicU64,
+    pub input: Mutex<Vec<u8>>,
+}
+
+static SLOTS: Mutex<Vec<Arc<WatchSlot>>> = Mutex::new(Vec::new());
+
+thread_local! {
+    static MY_SLOT: RefCell<Option<Arc<WatchSlot>>> = const { RefCell::new(None) };
+}
+
+/// announce the input the calling thread is about to process
+pub fn watch_begin(input: &[u8]) {
+    MY_SLOT.with(|s| {
+        let mut s = s.borrow_mut();
+        if s.is_none() {
+            let slot = Arc::new(WatchSlot {
+                clock: my_cpu_clock(),
+                counter: AtomicU64::new(0),
+                input: Mutex::new(Vec::new()),
+            });
+            SLOTS.lock().unwrap().push(slot.clone());
+            *s = Some(slot);
+        }
+        let slot = s.as_ref().unwrap();
+        {
+            let mut i = slot.input.lock().unwrap();
+            i.clear();
+            i.extend_from_slice(input);
+        }
+        slot.counter.fetch_add(1, AOrd::SeqCst);
+    });
+}
+
+/// the calling thread is between cases
+pub fn watch_end() {
+    MY_SLOT.with(|s| {
+        if let Some(slot) = s.borrow().as_ref() {
+            slot.counter.fetch_add(1, AOrd::SeqCst);
+        }
+    });
+}
+
+/// Start the supervisor. `on_hang(input)` is called (once per suspected hang) from the
+/// supervisor thread with the input that has been burning more than `limit_s` CPU-seconds.
+pub fn start_watchdog(limit_s: f64, on_hang: impl Fn(Vec<u8>) + Send + 'static) {
+    std::thread::Builder::new()
+        .name("watchdog".into())
+        .spawn(move || {
+            // per slot: (last counter, cpu at last change)
+            let mut seen: Vec<(u64, u64, bool)> = Vec::new();
+            loop {
+                std::thread::sleep(std::time::Duration::from_millis(200));
+                let slots: Vec<Arc<WatchSlot>> = SLOTS.lock().unwrap().clone();
+                while seen.len() < slots.len() {
+                    seen.push((u64::MAX, 0, false));
+                }
+                for (i, s) in slots.iter().enumerate() {
+                    let Some(cpu) = read_clock_ns(s.clock) else { continue };
+                    let c = s.counter.load(AOrd::SeqCst);
+                    if c != seen[i].0 {
+                        seen[i] = (c, cpu, false);
+                        continue;
+                    }
+                    // odd counter = inside a case
+                    if c % 2 == 1 && !seen[i].2 && (cpu - seen[i].1) as f64 / 1e9 > limit_s {
+                        seen[i].2 = true;
+                        let input = s.input.lock().unwrap().clone();
+                        on_hang(input);
+                    }
+                }
+            }
+        })
+        .unwrap();
+}
+
+/// run `f` in a fresh thread and wait until it finishes or has burnt `limit_s` CPU-seconds;
+/// returns true if it finished
+pub fn finishes_within(limit_s: f64, f: impl FnOnce() + Send + 'static) -> bool {
+    let (tx, rx) = std::sync::mpsc::channel();
+    let done = Arc::new(std::sync::atomic::AtomicBool::new(false));
+    let d2 = done.clone();
+    std::thread::Builder::new()
+        .name("confirm".into())
+        .stack_size(64 << 20)
+        .spawn(move || {
+            let _ = tx.send(my_cpu_clock());
+            let _ = catch(f);
+            d2.store(true, AOrd::SeqCst);
+        })
+        .unwrap();
+    let Ok(clock) = rx.recv() else { return true };
+    loop {
+        if done.load(AOrd::SeqCst) {
+            return true;
+        }
+        match read_clock_ns(clock) {
+            Some(ns) if ns as f64 / 1e9 > limit_s => return false,
+            None => return done.load(AOrd::SeqCst),
+            _ => {}
+        }
+        std::thread::sleep(std::time::Duration::from_millis(50));
+    }
+}
